@@ -150,6 +150,33 @@ def _c16_tags(toks, impl):
     return t
 
 
+def _c05_tags(toks, impl):
+    t = ["K=" + toks[2], "stranded=" + toks[3], "report_all=" + toks[4], "summarizer=" + toks[5].split(":")[0]]
+    if impl.startswith("passes="):
+        p = int(impl.split("|")[0][7:])
+        t.append("passes=%s" % ("1" if p == 1 else "2-7" if p < 8 else "8-63" if p < 64 else "64-255" if p < 256 else "256"))
+        t.append("table-empty" if impl.split("|")[1] == "-" else "table-nonempty")
+    else:
+        t.append("answer=" + impl[:10])
+    return t
+
+
+def _reads_shrink(idx):
+    def f(toks):
+        out = []
+        reads = toks[idx].split(",")
+        for i in range(len(reads)):
+            if len(reads) > 1:
+                out.append(toks[:idx] + [",".join(reads[:i] + reads[i + 1:])] + toks[idx + 1:])
+            sq, e, l = reads[i].split(":")
+            for blk in (len(sq) // 2, 4, 1):
+                if blk >= 1 and len(sq) > blk:
+                    for j in range(0, len(sq) - blk + 1, max(1, blk)):
+                        out.append(toks[:idx] + [",".join(reads[:i] + [sq[:j] + sq[j + blk:] + ":" + e + ":" + l] + reads[i + 1:])] + toks[idx + 1:])
+        return out
+    return f
+
+
 PROPS = {
     "C07": {
         "lean_modules": ["Dbg.Props.C07"],
@@ -309,5 +336,24 @@ PROPS = {
         "trusted_base": ["x86 semantics of the eleven AVX2 intrinsics as transcribed in Model/Avx2.lean (validated against the hardware by the "
                          "kernel requests on arbitrary bytes)", "DefaultHasher is an arbitrary deterministic function (parameter of the model)"],
         "assumptions": ["from_dna_string: code points < 256 (`c as u8` truncates; non-Latin-1 aliasing is outside the property)"],
+    },
+    "C05": {
+        "lean_modules": ["Dbg.Props.C05"],
+        "theorems": [],
+        "partial": [],
+        "n_quick": 2500, "n_thorough": 150000,
+        "nontrivial": lambda toks, impl: impl.startswith("passes=") and impl.split("|")[1].count(",") >= 1, "tags": _c05_tags,
+        "shrink": _reads_shrink(10),
+        "rule": "requests `filter K stranded report_all summarizer memory bytes_per_unit size_of_pair probes reads`: read sets from the structured "
+                "generator (alphabet 1-4; uniform, chunk-pasted with reuse, s++rc(s), hairpins, tandem repeats, homopolymers, tight cycles, "
+                "reads < K, rc/duplicate/SNP/tip copies; random boundary extensions on a quarter of the reads; labels 0..2), K in "
+                "{4,5,6,8,12,16,31,32} (thorough: all 17 types with K>=4), CountFilter(n) / CountFilterSet(n) for n in {0,1,2,3,4,70000}, "
+                "both strandedness and report_all values; the bytes-per-unit hook is set so that the pass count sweeps 1, 2, 2-8, 8-64, "
+                "64-256 and 256; now and then one 70000-base homopolymer (count saturation). The answer carries the number of passes really "
+                "made (hook counter), the table sorted by key, all_kmers verbatim and lookups of present/absent k-mers. Non-trivial = at "
+                "least two table entries.",
+        "trusted_base": ["BoomHashMap2: exact get after key verification, iteration is a permutation of the inserted triples; "
+                         "slice::sort_by_key is stable; itertools group_by groups maximal runs"],
+        "assumptions": ["K >= 4 (bucket reads bases 0..3), memory_size >= 1"],
     },
 }
